@@ -58,6 +58,7 @@ SocketServer::~SocketServer()
 	ASL_VERIF_HOOK(39, this, 0);
 	if(_thread) {
 		_thread->kill();
+		_thread->join(); // the accept thread may still be between '_running = false' and its last write to *_thread
 		delete _thread;
 	}
 }
